@@ -447,6 +447,11 @@ def conf_terms(cases, observations):
         ops_t, obs_t = [], []
         good = True
         for op, o in zip(c["ops"], ob["ops"]):
+            sc = op.get("script") or []
+            if len(set(json.dumps(x) for x in sc)) > 1 and (op["t"] == "hangup" or any(v["closed"] for v in o["conns"].values())):
+                # the disconnect clean-up visits the user's channels in hash-set order; with a non-uniform script
+                # of modulator outcomes the outcome each channel gets is not determined: stop comparing here
+                break
             obt, hints, ok = obs_term(op, o)
             good = good and ok
             ops_t.append(op_term(op, hints))
@@ -476,3 +481,46 @@ def conformance(cases, observations, tag):
     terms, flags = conf_terms(cases, observations)
     bad, out = coq_eval(PRELUDE, terms, kind="bool", tag=tag)
     return bad, out, flags
+
+
+def acl_histories(r, thorough, types=("join", "publish", "read")):
+    """directed: an owner edits one ACL type with random batches, reads it back, then every user probes it"""
+    cases = []
+    for _ in range(60 if thorough else 12):
+        cfg = base_cfg(r, None)
+        cfg.update({"max_clients": 10, "max_subs": 10, "max_conns": 16})
+        g = Gen(r, cfg)
+        ks = {}
+        for u in USERS:
+            k = g.next_k
+            g.next_k += 1
+            g.ops.append({"t": "open", "k": k})
+            g.send(k, frame("CONNECT", [("version", 1), ("heartbeat_interval", 0)]))
+            g.send(k, frame("IDENTIFY", [("username", u)]))
+            g.conns[k] = {"phase": 2, "user": u}
+            ks[u] = k
+        ch = "!c1@localhost"
+        owner = ks["alice"]
+        g.send(owner, frame("JOIN", [("id", g.rid()), ("channel", ch)]))
+        ty = r.choice(list(types))
+        if ty != "join":
+            for u in ("bob", "carol"):
+                g.send(ks[u], frame("JOIN", [("id", g.rid()), ("channel", ch)]))
+        for _ in range(r.randint(1, 5)):
+            nids = [r.choice(ACL_NIDS[:8] if r.random() < 0.7 else ["bob@localhost", "eve@other.example.org", "carol@localhost"]) for _ in range(r.choice([1, 1, 2, 3]))]
+            g.send(owner, frame("SET_CHAN_ACL", [("id", g.rid()), ("channel", ch), ("type", ty),
+                                                    ("action", r.choice(["add", "add", "remove", "remove"])), ("nids", nids)]))
+            g.send(owner, frame("GET_CHAN_ACL", [("id", g.rid()), ("channel", ch), ("type", ty)]))
+        for u in USERS[1:]:
+            if ty == "join":
+                g.send(ks[u], frame("JOIN", [("id", g.rid()), ("channel", ch)]))
+            elif ty == "publish":
+                g.send(ks[u], frame("BROADCAST", [("id", g.rid()), ("channel", ch), ("length", 3)], b"abc"))
+        if ty == "read":
+            g.send(owner, frame("BROADCAST", [("id", g.rid()), ("channel", ch), ("length", 3)], b"xyz"))
+        if ty == "join":
+            g.send(owner, frame("JOIN", [("id", g.rid()), ("channel", ch), ("on_behalf", "dave@localhost")]))
+        cases.append({"cfg": cfg, "ops": g.ops})
+    return cases
+
+
